@@ -84,7 +84,7 @@ impl Property for C16 {
     }
     fn cases(&self, tier: Tier) -> u64 {
         match tier {
-            Tier::Quick => 20_000,
+            Tier::Quick => 50_000,
             Tier::Thorough => 1_000_000,
         }
     }
